@@ -13,59 +13,79 @@ pub struct FuzzOutcome {
 pub fn run_libfuzzer(ctx: &Ctx, target: &str, runs: u64, max_len: u32) -> Option<FuzzOutcome> {
     let harness = verif_dir().join("harness");
     let out = super::out_dir().join("fuzz");
-    let corpus = out.join(format!("{}-corpus", target));
-    let art = out.join(format!("{}-artifacts", target));
-    let _ = std::fs::remove_dir_all(&corpus);
-    let _ = std::fs::remove_dir_all(&art);
-    std::fs::create_dir_all(&corpus).ok()?;
-    std::fs::create_dir_all(&art).ok()?;
     let seeds = harness.join("fuzz").join("seeds").join(target);
-    if let Ok(rd) = std::fs::read_dir(&seeds) {
-        for e in rd.flatten() {
-            let _ = std::fs::copy(e.path(), corpus.join(e.file_name()));
-        }
-    }
-    let seed = (ctx.seed % 2_000_000_000) as u32 + 1; // libFuzzer: 0 means random
-    let res = Command::new("cargo")
-        .current_dir(&harness)
-        .env("CARGO_NET_OFFLINE", "true")
-        .args(["+nightly", "fuzz", "run", target])
-        .arg(&corpus)
-        .arg("--")
-        .arg(format!("-runs={}", runs))
-        .arg(format!("-seed={}", seed))
-        .arg(format!("-max_len={}", max_len))
-        .arg("-len_control=0")
-        .arg("-print_final_stats=1")
-        .arg("-timeout=60")
-        .arg(format!("-artifact_prefix={}/", art.display()))
-        .output();
-    let outp = match res {
-        Ok(o) => o,
-        Err(e) => {
-            ctx.note(&format!("libfuzzer_{}", target), format!("cargo fuzz could not be started: {}", e));
-            return None;
-        }
-    };
-    let stderr = String::from_utf8_lossy(&outp.stderr).to_string();
-    let executed = stderr
-        .lines()
-        .filter_map(|l| l.strip_prefix("stat::number_of_executed_units:"))
-        .filter_map(|v| v.trim().parse::<u64>().ok())
-        .last()
-        .unwrap_or(0);
+    // libFuzzer is single-threaded: run several independent campaigns (different -seed, own corpus
+    // and artifact directories) side by side and add up their executions
+    let workers = ctx.jobs.clamp(1, 8) as u64;
+    let per = (runs / workers).max(1);
+    let results: Vec<Option<(u64, Vec<PathBuf>, String)>> = std::thread::scope(|sc| {
+        let handles: Vec<_> = (0..workers)
+            .map(|w| {
+                let harness = &harness;
+                let out = &out;
+                let seeds = &seeds;
+                sc.spawn(move || {
+                    let corpus = out.join(format!("{}-corpus-{}", target, w));
+                    let art = out.join(format!("{}-artifacts-{}", target, w));
+                    let _ = std::fs::remove_dir_all(&corpus);
+                    let _ = std::fs::remove_dir_all(&art);
+                    std::fs::create_dir_all(&corpus).ok()?;
+                    std::fs::create_dir_all(&art).ok()?;
+                    if let Ok(rd) = std::fs::read_dir(seeds) {
+                        for e in rd.flatten() {
+                            let _ = std::fs::copy(e.path(), corpus.join(e.file_name()));
+                        }
+                    }
+                    let seed = ((ctx.seed.wrapping_mul(31).wrapping_add(w)) % 2_000_000_000) as u32 + 1; // 0 means random
+                    let res = Command::new("cargo")
+                        .current_dir(harness)
+                        .env("CARGO_NET_OFFLINE", "true")
+                        .args(["+nightly", "fuzz", "run", "-s", "none", target])
+                        .arg(&corpus)
+                        .arg("--")
+                        .arg(format!("-runs={}", per))
+                        .arg(format!("-seed={}", seed))
+                        .arg(format!("-max_len={}", max_len))
+                        .arg("-len_control=0")
+                        .arg("-print_final_stats=1")
+                        .arg("-timeout=120")
+                        .arg(format!("-artifact_prefix={}/", art.display()))
+                        .output()
+                        .ok()?;
+                    let stderr = String::from_utf8_lossy(&res.stderr).to_string();
+                    let executed = stderr
+                        .lines()
+                        .filter_map(|l| l.strip_prefix("stat::number_of_executed_units:"))
+                        .filter_map(|v| v.trim().parse::<u64>().ok())
+                        .last()
+                        .unwrap_or(0);
+                    let mut artifacts = vec![];
+                    if let Ok(rd) = std::fs::read_dir(&art) {
+                        for e in rd.flatten() {
+                            artifacts.push(e.path());
+                        }
+                    }
+                    let tail: String = stderr.lines().rev().take(4).collect::<Vec<_>>().join(" | ");
+                    Some((executed, artifacts, tail))
+                })
+            })
+            .collect();
+        handles.into_iter().map(|h| h.join().ok().flatten()).collect()
+    });
+    let mut executed = 0u64;
     let mut artifacts = vec![];
-    if let Ok(rd) = std::fs::read_dir(&art) {
-        for e in rd.flatten() {
-            artifacts.push(e.path());
-        }
+    let mut tails = vec![];
+    for r in results.into_iter().flatten() {
+        executed += r.0;
+        artifacts.extend(r.1);
+        tails.push(r.2);
     }
     if executed == 0 && artifacts.is_empty() {
-        let tail: String = stderr.lines().rev().take(6).collect::<Vec<_>>().join(" | ");
-        ctx.note(&format!("libfuzzer_{}", target), format!("libFuzzer campaign produced no statistics (target not built / tool missing?): {}", tail));
+        ctx.note(&format!("libfuzzer_{}", target), format!("libFuzzer campaign produced no statistics (target not built / tool missing?): {}", tails.join(" || ")));
         return None;
     }
-    Some(FuzzOutcome { executed, artifacts, note: format!("libFuzzer target {} -runs={} -seed={} -max_len={}: executed {} units, {} artifact(s)", target, runs, seed, max_len, executed, 0) })
+    let n_art = artifacts.len();
+    Some(FuzzOutcome { executed, artifacts, note: format!("libFuzzer target {} ({} parallel campaigns, -runs={} each, -max_len={}, no sanitizer: the library forbids unsafe code): executed {} units, {} artifact(s)", target, workers, per, max_len, executed, n_art) })
 }
 
 /// Run the structured `filter_ops` target and report artifacts that decode to a case of the
